@@ -126,6 +126,10 @@ theorem abs_after_delCache (s : St) (hsnap : s.snap = []) (k : Key) (lo hi : TS)
     rw [if_neg hcv, Store.get_filter_other _ _ _ _ _ _ hcv']
     simp [St.abs, St.cacheView, St.filesView, hsnap, get_nil]
 
+theorem mem_ite_of {α : Type} {c : Prop} [Decidable c] {a b : List α} {x : α} (ha : x ∈ a) (hb : x ∈ b) :
+    x ∈ (if c then a else b) := by
+  split <;> assumption
+
 theorem list_mem_of_contains {l : List (Option Val)} {x : Option Val} (h : x ∈ l) : l.contains x = true := by
   simpa using h
 
@@ -147,7 +151,7 @@ theorem judge_sys (y : Sys) (s : SpecSt) (hr : Rel y s) (op : Op) (hop : op.twoP
         rw [abs_write, adm_setPoint]
         by_cases hkt : k' = k ∧ t' = t
         · simp only [hkt, and_self, if_true]
-          split <;> simp
+          exact mem_ite_of (by simp) (by simp)
         · simp only [hkt, if_false]; exact hr.adm k' t'
       · intro p hp hrac
         unfold setPoint at hp
@@ -157,11 +161,10 @@ theorem judge_sys (y : Sys) (s : SpecSt) (hr : Rel y s) (op : Op) (hop : op.twoP
           split at hrac
           · next hm =>
             simp only [hm, if_true] at hrac ⊢
-            simp only at hrac
-            simp [hrac]
+            rw [if_pos hrac]; simp
           · next hm => simp only [hm] at hrac ⊢; exact hr.racing q hq hrac
         · rcases List.mem_cons.mp hp with rfl | hp
-          · simp only at hrac ⊢; simp [hrac]
+          · simp only at hrac ⊢; rw [if_pos hrac]; simp
           · exact hr.racing p hp hrac
   | snapBegin =>
     simp only [sysStep]
@@ -387,17 +390,24 @@ theorem judge_sys (y : Sys) (s : SpecSt) (hr : Rel y s) (op : Op) (hop : op.twoP
               rw [hfd] at hold
               simp only [List.mem_singleton] at hold
               cases hcv : y.st.cacheView k' t' with
-              | some v => rw [hcv] at hold; simp at hold
+              | some v => rw [hcv] at hold; exact absurd hold (by simp)
               | none =>
-                rw [hcv] at hold; simp at hold
-                split <;> simp [hold]
+                rw [hcv] at hold
+                have hfv : y.st.filesView k' t' = none := by simpa using hold
+                have : (if covers (k, lo, hi) k' t' = true then none else y.st.filesView k' t') = none := by
+                  split
+                  · rfl
+                  · exact hfv
+                rw [this]; simp
             | some p =>
               simp only
               rw [hfd] at hold
               split
               · simp only
                 cases hcv : y.st.cacheView k' t' with
-                | some v => rw [hcv] at hold; simp at hold; exact mem_union.mpr (Or.inl (by simpa using hold))
+                | some v =>
+                  rw [hcv] at hold
+                  exact mem_union.mpr (Or.inl (by simpa using hold))
                 | none => exact mem_union.mpr (Or.inr (by simp))
               · exact hold
           · intro p hp hrac
@@ -418,7 +428,7 @@ theorem judge_sys (y : Sys) (s : SpecSt) (hr : Rel y s) (op : Op) (hop : op.twoP
       obtain ⟨hph, hcomp⟩ := hr.delIdle (by simp [hd])
       have hsnap : y.st.snap = [] := hr.inv.idle hph
       simp only [judge, hinfl]
-      refine ⟨rfl, ?_⟩
+      refine ⟨by first | rfl | trivial, ?_⟩
       have hf : ∀ p : PInfo, (if p.racing = true then { p with racing := false } else { p with adm := [none] } : PInfo).k = p.k ∧
           (if p.racing = true then { p with racing := false } else { p with adm := [none] } : PInfo).t = p.t := by
         intro p; split <;> exact ⟨rfl, rfl⟩
